@@ -503,12 +503,12 @@ fn gen_c11(seed: u64, rng: &mut Rng, strings_only: bool) -> Plan {
     p.opts.on_disk = rng.below(4) != 0;
     p.knobs.insert("failing_requests_expected".into(), 1);
     p.opts.threads = *rng.pick(&[1usize, 1, 2, 3, 8]);
-    p.opts.partition_combine_factor = *rng.pick(&[1u64, 4, 999]);
+    p.opts.partition_combine_factor = *rng.pick(&[1u64, 4, 999, 999]);
     p.check_each = false;
     // a small multi-partition database
     let mut id: u32 = 1;
     let parts = 2 + rng.below(3);
-    for _ in 0..parts {
+    for part in 0..parts {
         let rows = 2 + rng.below(6) as usize;
         let mk = |rng: &mut Rng, id: u32| {
             let cols = vec![
@@ -516,6 +516,11 @@ fn gen_c11(seed: u64, rng: &mut Rng, strings_only: bool) -> Plan {
                 ColBatch { name: "n".into(), cells: (0..rows).map(|_| if rng.below(5) == 0 { Cell::N } else { Cell::I(rng.range(-5, 300)) }).collect(), repr: Repr::Typed },
                 ColBatch { name: "f".into(), cells: (0..rows).map(|_| Cell::f(rng.range(-400, 400) as f64 / 4.0)).collect(), repr: Repr::Typed },
                 ColBatch { name: "s".into(), cells: (0..rows).map(|_| Cell::S(format!("k{}", rng.below(3)))).collect(), repr: Repr::Typed },
+                // sums of `big` fit in one partition and overflow only when partial results are
+                // merged: a request that fails in the merge step, not in a partition
+                // (one large value per partition, a larger one in the last: every partition sums up fine,
+                // so do the first two together, the total does not)
+                ColBatch { name: "big".into(), cells: (0..rows).map(|i| Cell::I(if i > 0 { rng.range(0, 1000) } else if part + 1 == parts { (1i64 << 62) + (1i64 << 61) } else { 1i64 << 61 })).collect(), repr: Repr::Typed },
             ];
             TableBatch { table: "t0".into(), rows, cols }
         };
@@ -538,7 +543,7 @@ fn gen_c11(seed: u64, rng: &mut Rng, strings_only: bool) -> Plan {
     if p.opts.on_disk && rng.below(3) == 0 {
         p.ops.push(Op::Restart);
     }
-    let info = crate::sqlgen::TableInfo { name: "t0".into(), int_cols: vec!["id".into(), "n".into()], float_cols: vec!["f".into()], str_cols: vec!["s".into()] };
+    let info = crate::sqlgen::TableInfo { name: "t0".into(), int_cols: vec!["id".into(), "n".into(), "big".into()], float_cols: vec!["f".into()], str_cols: vec!["s".into()] };
     let nclients = 1 + rng.below(3) as usize;
     let mut clients = Vec::new();
     for c in 0..nclients {
@@ -578,6 +583,59 @@ fn gen_c11(seed: u64, rng: &mut Rng, strings_only: bool) -> Plan {
     p
 }
 
+
+/// Not a check: a fixed plan that takes every error path and every endpoint once, so that
+/// process-global state built at first use (backtrace symbol caches behind `fatal!`, prometheus
+/// registrations, planner registries, actix / ahash / regex statics) exists before anything is
+/// measured. Building it creates HashMaps, which advances the per-thread hash-key counter of the
+/// run that happens to be first: without this, one run in a hundred differed between a fresh
+/// process and a long-lived worker.
+pub fn warm_up_plan() -> Plan {
+    use crate::plan::HttpEndpoint as E;
+    let mut rng = Rng::new(0x57A2_7000);
+    let mut p = base_plan("C12", "history", 0x57A2_7000, &mut rng);
+    p.opts = OptsSpec::defaults();
+    p.opts.on_disk = true;
+    p.opts.threads = 2;
+    p.knobs.insert("failing_requests_expected".into(), 1);
+    p.check_each = false;
+    for id in 1..=2u32 {
+        let cols = vec![
+            ColBatch { name: "id".into(), cells: (0..4).map(|i| Cell::I(id as i64 * 1000 + i)).collect(), repr: Repr::Typed },
+            ColBatch { name: "n".into(), cells: vec![Cell::I(1), Cell::N, Cell::I(300), Cell::I(7)], repr: Repr::Typed },
+            ColBatch { name: "f".into(), cells: (0..4).map(|i| Cell::f(i as f64 / 4.0)).collect(), repr: Repr::Typed },
+            ColBatch { name: "s".into(), cells: (0..4).map(|i| Cell::S(format!("k{}", i % 2))).collect(), repr: Repr::Typed },
+            ColBatch { name: "big".into(), cells: (0..4).map(|i| Cell::I((1i64 << 61) + i)).collect(), repr: Repr::Typed },
+        ];
+        p.ops.push(Op::Ingest(Request { id, path: if id == 1 { IngestPath::Native } else { IngestPath::Http }, tables: vec![TableBatch { table: "t0".into(), rows: 4, cols }] }));
+        p.ops.push(Op::Flush);
+    }
+    p.ops.push(Op::Restart);
+    p.ops.push(Op::CheckAll);
+    let info = crate::sqlgen::TableInfo { name: "t0".into(), int_cols: vec!["id".into(), "n".into(), "big".into()], float_cols: vec!["f".into()], str_cols: vec!["s".into()] };
+    let endpoints = [E::Query, E::QueryCols, E::MultiJson, E::MultiBin, E::MultiBinXor];
+    let mut k = 0;
+    for c in ["n", "big", "s"] {
+        for sql in crate::sqlgen::all_unsupported_or_failing(c, &info) {
+            p.ops.push(Op::RawQuery(sql.clone()));
+            if k % 3 == 0 {
+                p.ops.push(Op::HttpRawQuery { endpoint: endpoints[(k / 3) % endpoints.len()], sql });
+            }
+            k += 1;
+        }
+    }
+    for _ in 0..40 {
+        let sql = crate::sqlgen::supported(&mut rng, &info);
+        p.ops.push(Op::RawQuery(sql.clone()));
+        p.ops.push(Op::HttpRawQuery { endpoint: *rng.pick(&endpoints), sql });
+    }
+    p.ops.push(Op::HttpColumns { table: "t0".into(), pattern: "".into() });
+    p.ops.push(Op::Stats);
+    p.ops.push(Op::MemTree);
+    p.ops.push(Op::Evict);
+    p.ops.push(Op::CheckAll);
+    p
+}
 
 /// C17: everything goes through the HTTP handlers. A data-rich table `h` (integers beyond 2^53,
 /// NULLs, non-finite floats, mixed and all-NULL columns) inserted through /insert_bin and queried
